@@ -16,7 +16,7 @@ def pick_lengths(rng, fmt):
         b = 60
     if fmt.major == 0x05 and fmt.codec == 0x03:   # PAF24: 10 frames per block
         b = 10
-    cands = [0, 1, 2, 3, b - 1, b, b + 1, 2 * b + 1, 3 * b - 1, 100, 257, 1000]
+    cands = [0, 1, 2, 3, b - 1, b, b + 1, 2 * b + 1, 3 * b - 1, 4 * b + 1, 5 * b + 7, 7 * b - 1, 100, 257, 1000]
     cands = [c for c in cands if 0 <= c <= 9000]
     return cands
 
